@@ -184,7 +184,9 @@ def cross_check(ob, timeout_s=20):
     """thorough tier: every VC discharged by z3 is handed to cvc5 as SMT-LIB text; a `sat` there is an engine inconsistency"""
     import subprocess
     import tempfile
-    txt = core.to_smt2(ob, native=False)
+    # the formula handed to cvc5 is the one z3 refuted: the instantiated VC, or - when z3 needed its own quantifier instantiation - the VC with
+    # the schemas as quantified hypotheses (the purely instantiated VC is satisfiable then, by construction)
+    txt = core.to_smt2(ob, native="native quantifier" in (ob.reason or ""))
     with tempfile.NamedTemporaryFile("w", suffix=".smt2", delete=False, dir=os.environ.get("VERIF_TMP", "/tmp")) as f:
         f.write(txt)
         path = f.name
